@@ -136,7 +136,7 @@ class Ctx:
         known = [k for k in load_known() if k.get("status") == "known" and k["property"] == prop]
         sel = [o for o in sub.obs if (rules is None or o.rule in rules) and (constructs is None or any(c in o.construct for c in constructs))]
         bad = [o for o in sel if not o.ok and is_known(o, known) is None]
-        err = getattr(sub, "_dep_error", None)
+        err = getattr(sub, "_dep_error", None) or sub.broken or (sub.floor_failures[0] if sub.floor_failures else None)
         if err and not bad:
             raise AnalysisError("dependency %s of %s could not be analysed: %s" % (prop, self.prop, err))
         if not sel:
